@@ -58,8 +58,11 @@ def _primes(n):
 
 def compile_yaml(y):
     from teaal.parse import Einsum, Mapping, Architecture, Bindings, Format
+    from teaal.parse.yaml import YamlParser
     from teaal.trans.hifiber import HiFiber
-    h = HiFiber(Einsum.from_str(y), Mapping.from_str(y), Architecture.from_str(y), Bindings.from_str(y), Format.from_str(y))
+    d = YamlParser.parse_str(y)          # read once (ruamel is the slow part); every parser gets its own copy
+    h = HiFiber(Einsum(copy.deepcopy(d)), Mapping(copy.deepcopy(d)), Architecture(copy.deepcopy(d)),
+                Bindings(copy.deepcopy(d)), Format(copy.deepcopy(d)))
     text = str(h)
     blocks = [list(b) for b in h.fusion.get_blocks()]
     reg = {e: list(cs) for e, cs in h.fusion.component_dict.items()}
@@ -414,7 +417,7 @@ def judge(ctx, c, rep, stats):
             continue
         if a["k_text"] != a["k_spec"]:
             shared = a["component"] in conflicts
-            key = {"kind": "component-divisor", "shared_name_conflict": shared, "code_model_agrees": a["k_text"] == a["k_code"]}
+            key = {"kind": "component-divisor", "observed": "text", "shared_name_conflict": shared, "code_model_agrees": a["k_text"] == a["k_code"]}
             viol(key, "Einsum %s (configuration %s): time of %s divides by %s; frequency-or-bandwidth x instances of its level in that configuration is %s%s" % (
                 a["einsum"], cfg_of.get(a["einsum"]), a["component"], a["k_text"], a["k_spec"],
                 " (the name is declared in several configurations: %s)" % conflicts[a["component"]] if shared else ""),
@@ -435,7 +438,7 @@ def judge(ctx, c, rep, stats):
             shared = t["component"] in conflicts
             agrees = all(x["ok_code"] == "T" for x in wrong)
             f14_shaped = all(x["component"] in conflicts for x in wrong) and agrees
-            viol({"kind": "component-time", "shared_name_conflict": shared, "code_model_agrees": agrees},
+            viol({"kind": "component-divisor", "observed": "execution", "shared_name_conflict": shared, "code_model_agrees": agrees},
                  "Einsum %s: metrics[..][%s][\"time\"] is not count / (frequency-or-bandwidth x instances) for the stand-in counts" % (
                      t["einsum"], t["component"]),
                  {"env": sorted(("/".join(k), v) for k, v in c.envs[i].items()), "wrong": wrong})
@@ -452,6 +455,24 @@ def judge(ctx, c, rep, stats):
 LEVEL_NAMES = ["PE", "PE[0..7]", " PE [0.. 7 ] ", "PE[0..0]", "PE[0..299]", "PE[0..007]", "_x9[0..12]", "P_E[0..16383]",
                "PE[0 ..7]", "PE[1..7]", "PE[0..]", "PE[0..7", "PE[0..7]x", "P E", "9PE", "PE[0..-1]", "PE[0..7][0..2]", "PE[0...7]",
                "PE[0..4.5]", "PE[0..1e1]", "", "PE\t[0..3]", "pe[0..3 ]"]
+
+
+def cstr_any(s):
+    """Coq string literal for any ASCII string (tabs included)."""
+    parts = []
+    cur = ""
+    for ch in s:
+        if 32 <= ord(ch) < 127:
+            cur += ch
+        else:
+            assert ord(ch) < 128, s
+            if cur:
+                parts.append(cstr(cur))
+                cur = ""
+            parts.append("(String (Ascii.ascii_of_nat %d) EmptyString)" % ord(ch))
+    if cur or not parts:
+        parts.append(cstr(cur))
+    return "(" + " ++ ".join(parts) + ")%string"
 
 
 def check_level_names(ctx, rng, stats):
@@ -472,7 +493,7 @@ def check_level_names(ctx, rng, stats):
             code.append("%s,%d" % (t["name"], t["num"]))
         except Exception:
             code.append("-")
-        exprs.append("(match parse_level %s with Some (n, k) => (n ++ \",\" ++ show_Z k)%%string | None => \"-\" end)" % cstr(nm))
+        exprs.append("(match parse_level %s with Some (n, k) => (n ++ \",\" ++ show_Z k)%%string | None => \"-\" end)" % cstr_any(nm))
     res = vlib.coq_eval_lines("c14lv", IMPORTS, "", exprs)
     for nm, a, b in zip(names, code, res):
         stats["level_names"] += 1
